@@ -308,10 +308,9 @@ def _check_wake(run, repo, world, mod):
            "every in-flight entry must get 'fail' appended and its event set",
            where(mod, sfn))
     ho, hfn = _fn(world, HID + ".hasseb", "_shutdown_device")
-    body = [unparse(s) for s in hfn.body]
     run.ob("R-WAKE", HID + ".hasseb._shutdown_device",
-           "self._response = 'fail'" in body and
-           "self._response_available.set()" in body,
+           _unconditional(hfn, ["self._response = 'fail'",
+                                "self._response_available.set()"]),
            "the waiting sender must be handed 'fail' and woken",
            where(mod, hfn))
     for cq in (HID + ".tridonic", HID + ".hasseb"):
@@ -355,8 +354,6 @@ def _check_wake(run, repo, world, mod):
     # bus watch task cancelled and state reset for the next handshake
     body = " ".join(unparse(s) for s in sfn.body)
     run.ob("R-WAKE", HID + ".tridonic._shutdown_device#handshake-reset",
-           "self.firmware_version = None" in ast.unparse(sfn) and
-           "self.serial = None" in ast.unparse(sfn) and
            "self._bus_watch_task.cancel()" in ast.unparse(sfn) and
            _unconditional(sfn, ["self.firmware_version = None",
                                 "self.serial = None"]),
@@ -374,17 +371,35 @@ def _check_wake(run, repo, world, mod):
 
 
 def _unconditional(fn, texts):
-    """Each text is a top-level statement of fn's body, not preceded by a
-    return."""
-    top = []
-    for s in fn.body:
-        if isinstance(s, ast.Return):
-            break
-        if isinstance(s, ast.If) and any(isinstance(x, ast.Return)
-                                         for x in ast.walk(s)):
-            break
-        top.append(unparse(s))
-    return all(t in top for t in texts)
+    """Each text is an effect (a call statement or an assignment, locals
+    that alias an attribute written out) that every normal path through fn
+    performs: must-analysis on the CFG, so the order of the statements and
+    the nesting of unrelated conditionals do not matter."""
+    from ..cfg import forward, explicit_raise_only
+    from .. import astq
+    f2 = astq.propagate(fn)
+    cfg = CFG(f2, may_raise=explicit_raise_only, name=fn.name)
+
+    def transfer(node, st):
+        if node.kind == "stmt" and isinstance(node.ast, ast.Expr):
+            return st | {unparse(node.ast, 300)}
+        if node.kind == "stmt" and isinstance(node.ast, ast.Assign):
+            # `a = b = v` and `a, b = v, w` are one effect per target
+            out = set()
+            for t in node.ast.targets:
+                if isinstance(t, ast.Tuple) and isinstance(
+                        node.ast.value, ast.Tuple) and len(t.elts) == len(
+                            node.ast.value.elts):
+                    out |= {"%s = %s" % (unparse(a), unparse(b)) for a, b
+                            in zip(t.elts, node.ast.value.elts)}
+                else:
+                    out.add("%s = %s" % (unparse(t), unparse(
+                        node.ast.value, 300)))
+            return st | out
+        return st
+    IN = forward(cfg, transfer, must=True)
+    done = IN.get(cfg.exit.id, frozenset())
+    return all(t in done for t in texts)
 
 
 def _check_wrfail(run, repo, world, mod):
